@@ -80,15 +80,22 @@ Triples == {<<Sc(GR(x)), Sc(GR(y)), Sc(GR(w))>> : x \in AxM, y \in AxM, w \in Ax
 Quads == {<<Sc(GR(x)), Sc(GR(y)), Sc(GR(w)), Sc(GR(v))>> : x \in {Q(-1, 1), Q(2, 1), Q(1, 2)}, y \in {Q(-1, 1), Q(2, 1), Q(1, 2)},
                                                            w \in {Q(-1, 1), Q(2, 1), Q(1, 2)}, v \in {Q(-1, 1), Q(2, 1), Q(1, 2)}}
 ZeroFlags(args) == {nz \in [1..Len(args) -> BOOLEAN] : \A i \in 1..Len(args) : nz[i] => GIs0(args[i].e[1])}
-MultiArgs(f) == IF f \in {"min", "max"} THEN RealPairs \cup MixedPairs \cup Triples \cup Quads
-                ELSE IF f = "arctan2" THEN RealPairs \cup MixedPairs
-                ELSE {<<Sc(x), Sc(y)>> : x \in PairPts, y \in PairPts}
-MultiCases(tb, f) == UNION {[kind : {"multi"}, tb : {tb}, f : {f}, args : {args},
-                             nz : {Tup(nz, Len(args)) : nz \in (IF f = "arctan2" THEN ZeroFlags(args) ELSE {NoNz(Len(args))})}]
-                            : args \in MultiArgs(f)}
-MatrixCases(tb, f) == IF f = "cross"
-                      THEN [kind : {"matrix"}, tb : {tb}, f : {f}, args : {<<u, v>> : u \in Vec3s, v \in Vec3s}, nz : {NoNz(2)}]
-                      ELSE [kind : {"matrix"}, tb : {tb}, f : {f}, args : {<<a>> : a \in MatArgs}, nz : {NoNz(1)}]
+\* (families only split the work between TLC workers: one seed per (table, function, family))
+MultiFams == {"realpairs", "mixed", "triples", "quads", "allpairs"}
+MultiArgs(f, fam) == CASE fam = "realpairs" -> IF f = "kronecker" THEN {} ELSE RealPairs
+                       [] fam = "mixed" -> IF f = "kronecker" THEN {} ELSE MixedPairs
+                       [] fam = "triples" -> IF f \in {"min", "max"} THEN Triples ELSE {}
+                       [] fam = "quads" -> IF f \in {"min", "max"} THEN Quads ELSE {}
+                       [] fam = "allpairs" -> IF f = "kronecker" THEN {<<Sc(x), Sc(y)>> : x \in PairPts, y \in PairPts} ELSE {}
+MultiCases(tb, f, fam) == UNION {[kind : {"multi"}, tb : {tb}, f : {f}, args : {args},
+                                  nz : {Tup(nz, Len(args)) : nz \in (IF f = "arctan2" THEN ZeroFlags(args) ELSE {NoNz(Len(args))})}]
+                                 : args \in MultiArgs(f, fam)}
+MatFams == {"scalars", "vec2", "vec3", "mat22", "mat33", "mat23", "mat32"}
+MatFam(fam) == CASE fam = "scalars" -> ScalarsM [] fam = "vec2" -> Vec2s [] fam = "vec3" -> Vec3s [] fam = "mat22" -> Mat22s
+                 [] fam = "mat33" -> Mat33s [] fam = "mat23" -> Mat23s [] fam = "mat32" -> Mat32s
+MatrixCases(tb, f, fam) == IF f = "cross"
+                           THEN [kind : {"matrix"}, tb : {tb}, f : {f}, args : {<<u, v>> : u \in MatFam(fam), v \in Vec3s}, nz : {NoNz(2)}]
+                           ELSE [kind : {"matrix"}, tb : {tb}, f : {f}, args : {<<a>> : a \in MatFam(fam)}, nz : {NoNz(1)}]
 SigCases(tb, f) == UNION {[kind : {"sig"}, tb : {tb}, f : {f}, args : {args}, nz : {NoNz(Len(args))}] : args \in ArgTuples}
 
 IdentPts(d) == IF d.nv = 0 THEN {<<GZ, GZ>>}
@@ -105,20 +112,27 @@ ConstCases == [kind : {"const"}, tb : Tables, name : {"i", "j", "e", "pi"}]
 TablesOf(p) == IF Quick /\ p \in {"multi", "ident"} THEN {"formula"} ELSE Tables
 Seeds == CASE Part = "sig" -> {[kind |-> "seed", tb |-> tb, f |-> f] : tb \in Tables, f \in SigNames}
            [] Part = "unary" -> {[kind |-> "seed", tb |-> tb, f |-> f] : tb \in Tables, f \in UnaryFns}
-           [] Part = "multi" -> {[kind |-> "seed", tb |-> tb, f |-> f] : tb \in TablesOf("multi"), f \in {"arctan2", "kronecker", "min", "max"}}
-           [] Part = "matrix" -> {[kind |-> "seed", tb |-> "matrix", f |-> f] : f \in MatFns \cup {"cross"}}
-                                 \cup {[kind |-> "seed", tb |-> "formula", f |-> f] : f \in {"re", "im", "conj", "abs", "det"}}
+           [] Part = "multi" -> {[kind |-> "seed", tb |-> tb, f |-> f, fam |-> fam] :
+                                    tb \in TablesOf("multi"), f \in {"arctan2", "kronecker", "min", "max"}, fam \in MultiFams}
+           [] Part = "matrix" -> {[kind |-> "seed", tb |-> "matrix", f |-> f, fam |-> fam] : f \in MatFns, fam \in MatFams}
+                                 \cup {[kind |-> "seed", tb |-> "matrix", f |-> "cross", fam |-> fam] : fam \in {"vec3", "vec2", "scalars"}}
+                                 \cup {[kind |-> "seed", tb |-> "formula", f |-> f, fam |-> fam] :
+                                          f \in {"re", "im", "conj", "abs", "det"}, fam \in MatFams}
+           [] Part = "tmpl" -> {[kind |-> "tmpl", k |-> k] : k \in 1..Len(Identities)}
            [] Part = "ident" -> {[kind |-> "seed", tb |-> tb, k |-> k] : tb \in TablesOf("ident"), k \in 1..Len(Identities)}
                                 \cup {[kind |-> "seedconst"]}
-Init == c \in Seeds /\ out = [k |-> "seed"]
+\* identity templates (holes Z, W left in place) for the random driver of the adapter
+TmplOut(k) == LET d == Identities[k] IN
+              [id |-> d.id, ltoks |-> Spelling(d.l), rtoks |-> Spelling(d.r), rel |-> d.rel, nv |-> d.nv, g |-> d.g]
+Init == c \in Seeds /\ out = (IF Part = "tmpl" THEN TmplOut(c.k) ELSE [k |-> "seed"])
 Next == \/ /\ c.kind = "seed" /\ Part = "sig"
            /\ c' \in SigCases(c.tb, c.f) /\ out' = CallOut(c'.tb, c'.f, c'.args, c'.nz)
         \/ /\ c.kind = "seed" /\ Part = "unary"
            /\ c' \in UnaryCases(c.tb, c.f) /\ out' = CallOut(c'.tb, c'.f, c'.args, c'.nz)
         \/ /\ c.kind = "seed" /\ Part = "multi"
-           /\ c' \in MultiCases(c.tb, c.f) /\ out' = CallOut(c'.tb, c'.f, c'.args, c'.nz)
+           /\ c' \in MultiCases(c.tb, c.f, c.fam) /\ out' = CallOut(c'.tb, c'.f, c'.args, c'.nz)
         \/ /\ c.kind = "seed" /\ Part = "matrix"
-           /\ c' \in MatrixCases(c.tb, c.f) /\ out' = CallOut(c'.tb, c'.f, c'.args, c'.nz)
+           /\ c' \in MatrixCases(c.tb, c.f, c.fam) /\ out' = CallOut(c'.tb, c'.f, c'.args, c'.nz)
         \/ /\ c.kind = "seed" /\ Part = "ident"
            /\ c' \in IdentCases(c.tb, c.k) /\ out' = IdentOut(c')
         \/ /\ c.kind = "seedconst"
@@ -161,11 +175,13 @@ LawMulti == c.kind = "multi" =>
    /\ (c.f \in {"min", "max"} /\ Len(c.args) = 2) => Outcome(c.tb, c.f, <<c.args[2], c.args[1]>>) = out.o
 LawMatrix == c.kind = "matrix" =>
    /\ (c.f # "cross" /\ A!IsMatrix(c.args[1])) => (LawTranspose(c.args[1]) /\ LawSquare(c.args[1]))
-   /\ (c.f = "cross") => LawCross(c.args[1], c.args[2])
+   /\ (c.f = "cross" /\ c.args[1].sh = <<3>> /\ c.args[2].sh = <<3>>) => LawCross(c.args[1], c.args[2])
+   /\ (c.f = "cross") => ((out.o.k = "exact") <=> (c.args[1].sh = <<3>> /\ c.args[2].sh = <<3>>))
    \* adj and ctrans are the same function; trans twice is the identity on outcomes
    /\ (c.f = "adj") => Outcome(c.tb, "ctrans", c.args) = out.o
    /\ (c.f = "norm" /\ out.o.k = "sqrtof") => out.o.q[1] >= 0
-   /\ (c.f \in {"det", "trace"}) => ((out.o.k = "exact") <=> A!IsSquare(c.args[1]))
+   /\ (c.f \in {"det", "trace"} /\ c.tb = "matrix") => ((out.o.k = "exact") <=> A!IsSquare(c.args[1]))
+   /\ (c.tb = "formula" /\ c.f \notin DOMAIN FormulaSig) => out.o = MustErr("undefined")
 LawIdent == c.kind = "ident" => LawInstance(Instance(c.k, c.pt[1], c.pt[2], c.tb), c.tb)
 \* statuses: an identity must raise on the left exactly when some function is applied at one of its poles (or beyond
 \* the floats); spot-checked for the round trips, where the only function applied to the point is the inverse
